@@ -28,6 +28,10 @@ CURRENT = None  # the World of the running simulation (remote bodies find it her
 ENDMARK_TOKEN = -1
 
 
+class _SkipOp(Exception):
+    pass
+
+
 class _FakeGroup:
     def __init__(self):
         self.members = []
@@ -81,8 +85,17 @@ class World:
             self._hook_queues(em, side)
         self.p_iw = SimPipe(s, "i>w", "i", "w", chunking)
         self.p_wi = SimPipe(s, "w>i", "w", "i", chunking)
-        if cut is not None:  # ("w>i", offset) or ("i>w", offset)
-            (self.p_wi if cut[0] == "w>i" else self.p_iw).cut_at = cut[1]
+        self.cut = cut
+        if cut is not None:  # ("w>i", offset[, "die"]): the stream to the initiator ends after `offset` bytes
+            pipe = self.p_wi if cut[0] == "w>i" else self.p_iw
+            pipe.cut_at = cut[1]
+            if cut[1] == 0:
+                pipe._cut_fired = True
+                self.s.events.append({"ev": "cut", "side": pipe.dst, "op": "", "chan": 0, "tok": 0, "res": "", "thread": "", "flag": False})
+            if len(cut) > 2 and cut[2] == "die":
+                pipe.on_cut = self.on_peer_death
+                if cut[1] == 0:
+                    self._dead_from_start = True
         if transport == "socket":
             from execnet.gateway_socket import SocketIO
 
@@ -104,6 +117,7 @@ class World:
         self._oldos = None
         self.worker_main = None
         self.draining = set()
+        self.failed_vars = set()
         self.open_bodies = 0
 
     # ------------------------------------------------------------ observation
@@ -155,6 +169,11 @@ class World:
         if self.worker_main is not None and not self.worker_main.done:
             self.s.interrupt(self.worker_main, KeyboardInterrupt())
 
+    def on_peer_death(self):
+        """the worker process dies: all its threads stop, both directions of the connection break"""
+        self.s.kill_tasks(lambda t: t.name.startswith("w"))
+        self.p_iw.cut_here()
+
     def on_self_exit(self, code):
         self.ev("ladder", "w", "_exit")
         self.s.kill_tasks(lambda t: t.name.startswith("w"))
@@ -182,6 +201,8 @@ class World:
         self.group.members.append(self.gw)
         for th in self.program["threads"]:
             s.spawn(th["name"], self.run_thread, (th,))
+        if getattr(self, "_dead_from_start", False):
+            self.on_peer_death()
 
     def run(self):
         try:
@@ -198,6 +219,10 @@ class World:
             if not (left & users) and all(n in ("wmain", "i-t1", "w-t1") for n in left):
                 outcome = "done"
                 self.s.events = [e for e in self.s.events if e["ev"] != "stuck"]
+        if self.cut is not None:
+            pipe = self.p_wi if self.cut[0] == "w>i" else self.p_iw
+            if not pipe._cut_fired:
+                outcome = "nocut"  # this schedule never produced that many bytes
         if outcome == "done":
             self.ev("end", "", "")
         evs = []
@@ -213,7 +238,8 @@ class World:
         ns = self.ns
         self.ns = None
         del ns
-        return {"outcome": outcome, "events": evs, "decisions": [d[0] for d in self.s.chooser.decisions], "steps": self.s.steps}
+        return {"outcome": outcome, "events": evs, "decisions": [d[0] for d in self.s.chooser.decisions], "steps": self.s.steps,
+                "wi_bytes": self.p_wi.written, "wi_frames": [f[0] for f in self.p_wi.frames]}
 
     # --------------------------------------------------------- op interpreter
     def run_thread(self, th):
@@ -255,7 +281,11 @@ class World:
         s = self.s
 
         def ch(v):
-            return local[v] if v in local else ns[v]
+            if v in local:
+                return local[v]
+            if v not in ns:
+                raise _SkipOp()  # an earlier op that should have bound it failed (logged there)
+            return ns[v]
 
         def call(op, c=None, tok=0):
             self.ev("call", side, op, c.id if c is not None else 0, tok)
@@ -268,13 +298,14 @@ class World:
             k = op[0]
             try:
                 if k == "await":
-                    s.yield_(("await", op[1]), lambda: op[1] in ns)
+                    s.yield_(("await", op[1]), lambda: op[1] in ns or op[1] in self.failed_vars)
                 elif k == "newchannel":
                     call("newchannel")
                     try:
                         c = self.gw.newchannel() if side == "i" else channel.gateway.newchannel()
                     except Exception as e:
                         ret("newchannel", None, 0, self.classify(e))
+                        self.failed_vars.add(op[1])
                         continue
                     ns[op[1]] = c
                     ret("newchannel", c)
@@ -285,6 +316,7 @@ class World:
                         c = self.gw.remote_exec(src)
                     except Exception as e:
                         ret("remote_exec", None, 0, self.classify(e))
+                        self.failed_vars.add(op[1])
                         continue
                     ns[op[1]] = c
                     ret("remote_exec", c)
@@ -387,7 +419,7 @@ class World:
                 elif k == "drop":
                     c = None
                     v = op[1]
-                    cid = (local.get(v) or ns.get(v)).id
+                    cid = ch(v).id
                     self.ev("call", side, "drop", cid)
                     local.pop(v, None)
                     ns.pop(v, None)
@@ -427,5 +459,7 @@ class World:
                     (self.em_i if side == "i" else self.em_w).sleep(op[1])
                 else:
                     raise ValueError(f"unknown op {op!r}")
+            except _SkipOp:
+                continue
             finally:
                 c = c2 = x = None
